@@ -538,7 +538,7 @@ func ruleDaemonLog(r *Run) {
 			case *ssa.Call:
 				if callee := x.Common().StaticCallee(); callee != nil && callee.Pkg != nil && callee.Pkg.Pkg.Path() == "encoding/binary" {
 					sizeCall = x
-					if !(strings.Contains(callee.String(), "bigEndian") && callee.Name() == "Uint32") {
+					if !(strings.Contains(callee.String(), "bigEndian") && cname(callee) == "Uint32") {
 						good = false
 						oc.Fail(r.pos(x.Pos()), "frame size is decoded with %s, stdcopy writes binary.BigEndian.PutUint32", callee.String())
 					}
@@ -964,7 +964,7 @@ func ruleParseDockerLine(r *Run, fn *ssa.Function, inputIdx, recIdx int) {
 			switch x := v.(type) {
 			case *ssa.Call:
 				callee := x.Common().StaticCallee()
-				if callee != nil && callee.Name() == "NewTimestampFromTime" && len(x.Call.Args) == 1 {
+				if callee != nil && cname(callee) == "NewTimestampFromTime" && len(x.Call.Args) == 1 {
 					return walk(x.Call.Args[0])
 				}
 			case *ssa.UnOp:
